@@ -5,7 +5,7 @@
    source are the modelled ones and instantiates C13_transparent with the source's tag table. *)
 From Coq Require Import String.
 From Coq Require Import List NArith.
-From Verif Require Import Base Memo MemoProofs.
+From Verif Require Import Base Utf8 Transform CaseMap Memo MemoProofs.
 Import ListNotations.
 Open Scope N_scope.
 
@@ -40,43 +40,44 @@ Print Assumptions C13_history_transparent.
 (* the keys the CODE builds are faithful: for every tag table without a tag that is a prefix of
    another one (checked on the regenerated tags in gen/FactsC13.v), every hash that does not
    collide on the schema files in play, and requests as the code produces them (joined entries
-   are non-empty and newline-free) *)
+   are non-empty and newline-free); [lower] = strings.ToLower is ANY function: the statement covers
+   non-ASCII and invalid UTF-8 phrases, pattern files and regex keys *)
 Theorem C13_keys_faithful :
-  forall (tags : kind -> bytes) (hash : bytes -> bytes) (re_ok binre_ok schema_ok : bytes -> bool)
+  forall (tags : kind -> bytes) (lower hash : bytes -> bytes) (re_ok binre_ok schema_ok : bytes -> bool)
          (U : creq -> Prop),
     tags_prefix_free tags = true ->
-    (forall r, U r -> wf_creq r = true) ->
+    (forall r, U r -> wf_creq lower r = true) ->
     (forall a b, U (RSchema a) -> U (RSchema b) -> hash a = hash b -> a = b) ->
-    faithful_on creq cart cerr (ckey_of tags hash) (cbuild re_ok binre_ok schema_ok) U.
+    faithful_on creq cart cerr (ckey_of tags lower hash) (cbuild lower re_ok binre_ok schema_ok) U.
 Proof. exact ckeys_faithful. Qed.
 Print Assumptions C13_keys_faithful.
 
 (* C13 for the call sites of the code (external compilers are arbitrary functions) *)
 Theorem C13_transparent :
-  forall (tags : kind -> bytes) (hash : bytes -> bytes) (re_ok binre_ok schema_ok : bytes -> bool)
+  forall (tags : kind -> bytes) (lower hash : bytes -> bytes) (re_ok binre_ok schema_ok : bytes -> bool)
          (U : creq -> Prop),
     tags_prefix_free tags = true ->
-    (forall r, U r -> wf_creq r = true) ->
+    (forall r, U r -> wf_creq lower r = true) ->
     (forall a b, U (RSchema a) -> U (RSchema b) -> hash a = hash b -> a = b) ->
     forall (h : list (event creq)) (id : N) (rs : list creq),
       hist_in creq U h -> Forall U rs ->
-      snd (cconstruct tags hash re_ok binre_ok schema_ok
-             (ps_cache (crun tags hash re_ok binre_ok schema_ok h)) id rs)
-      = cconstruct_nocache re_ok binre_ok schema_ok rs.
+      snd (cconstruct tags lower hash re_ok binre_ok schema_ok
+             (ps_cache (crun tags lower hash re_ok binre_ok schema_ok h)) id rs)
+      = cconstruct_nocache lower re_ok binre_ok schema_ok rs.
 Proof. exact ctransparent. Qed.
 Print Assumptions C13_transparent.
 
 (* ... and no type assertion on a cached value ever fails (F04 cannot come back) *)
 Theorem C13_never_panics :
-  forall (tags : kind -> bytes) (hash : bytes -> bytes) (re_ok binre_ok schema_ok : bytes -> bool)
+  forall (tags : kind -> bytes) (lower hash : bytes -> bytes) (re_ok binre_ok schema_ok : bytes -> bool)
          (U : creq -> Prop),
     tags_prefix_free tags = true ->
-    (forall r, U r -> wf_creq r = true) ->
+    (forall r, U r -> wf_creq lower r = true) ->
     (forall a b, U (RSchema a) -> U (RSchema b) -> hash a = hash b -> a = b) ->
     forall (h : list (event creq)) (id : N) (rs : list creq) (l : list cart),
       hist_in creq U h -> Forall U rs ->
-      snd (cconstruct tags hash re_ok binre_ok schema_ok
-             (ps_cache (crun tags hash re_ok binre_ok schema_ok h)) id rs)
+      snd (cconstruct tags lower hash re_ok binre_ok schema_ok
+             (ps_cache (crun tags lower hash re_ok binre_ok schema_ok h)) id rs)
       <> Panicked l.
 Proof. exact cnever_panics. Qed.
 Print Assumptions C13_never_panics.
@@ -119,8 +120,8 @@ Print Assumptions C13_no_leak.
    panics on a type assertion while its no-cache build is fine *)
 Theorem C13_untagged_keys_refuted :
   exists rs,
-    snd (cconstruct untagged id_hash all_ok all_ok all_ok [] 1 rs) = Panicked [ARegexp (str "foo"%string)]
-    /\ cconstruct_nocache all_ok all_ok all_ok rs = Built [ARegexp (str "foo"%string); AAho true [str "foo"%string]].
+    snd (cconstruct untagged lower_ascii id_hash all_ok all_ok all_ok [] 1 rs) = Panicked [ARegexp (str "foo"%string)]
+    /\ cconstruct_nocache lower_ascii all_ok all_ok all_ok rs = Built [ARegexp (str "foo"%string); AAho true [str "foo"%string]].
 Proof. exact untagged_keys_refuted. Qed.
 Print Assumptions C13_untagged_keys_refuted.
 
@@ -128,9 +129,9 @@ Print Assumptions C13_untagged_keys_refuted.
    the first WAF's matcher *)
 Theorem C13_name_only_key_refuted :
   exists h id rs,
-    snd (construct creq cart cerr key_name_only (cbuild all_ok all_ok all_ok) cexpect
-           (ps_cache (run creq cart cerr key_name_only (cbuild all_ok all_ok all_ok) cexpect h)) id rs)
-    <> cconstruct_nocache all_ok all_ok all_ok rs.
+    snd (construct creq cart cerr key_name_only (cbuild lower_ascii all_ok all_ok all_ok) cexpect
+           (ps_cache (run creq cart cerr key_name_only (cbuild lower_ascii all_ok all_ok all_ok) cexpect h)) id rs)
+    <> cconstruct_nocache lower_ascii all_ok all_ok all_ok rs.
 Proof. exact name_only_key_refuted. Qed.
 Print Assumptions C13_name_only_key_refuted.
 
@@ -138,9 +139,57 @@ Print Assumptions C13_name_only_key_refuted.
    on well-formed requests *)
 Theorem C13_name_nul_key_refuted :
   exists h id rs,
-    Forall (fun r => wf_creq r = true) rs /\
-    snd (construct creq cart cerr key_name_nul (cbuild all_ok all_ok all_ok) cexpect
-           (ps_cache (run creq cart cerr key_name_nul (cbuild all_ok all_ok all_ok) cexpect h)) id rs)
-    <> cconstruct_nocache all_ok all_ok all_ok rs.
+    Forall (fun r => wf_creq lower_ascii r = true) rs /\
+    snd (construct creq cart cerr key_name_nul (cbuild lower_ascii all_ok all_ok all_ok) cexpect
+           (ps_cache (run creq cart cerr key_name_nul (cbuild lower_ascii all_ok all_ok all_ok) cexpect h)) id rs)
+    <> cconstruct_nocache lower_ascii all_ok all_ok all_ok rs.
 Proof. exact name_nul_key_refuted. Qed.
 Print Assumptions C13_name_nul_key_refuted.
+
+(* the call sites that lower-case (@pm phrase lists, @pmFromFile lines, regex keys of case-insensitive
+   variables): two requests share a cache entry EXACTLY when their lower-cased texts are equal ... *)
+Theorem C13_pm_key_iff :
+  forall (tags : kind -> bytes) (lower hash : bytes -> bytes) (a b : bytes),
+    ckey_of tags lower hash (RPm a) = ckey_of tags lower hash (RPm b) <-> lower a = lower b.
+Proof. exact pm_key_iff. Qed.
+Print Assumptions C13_pm_key_iff.
+
+Theorem C13_pmf_key_iff :
+  forall (tags : kind -> bytes) (lower hash : bytes -> bytes) (l1 l2 : list bytes),
+    forallb wf_line (map lower l1) = true -> forallb wf_line (map lower l2) = true ->
+    (ckey_of tags lower hash (RPmF l1) = ckey_of tags lower hash (RPmF l2) <-> map lower l1 = map lower l2).
+Proof. exact pmf_key_iff. Qed.
+Print Assumptions C13_pmf_key_iff.
+
+Theorem C13_regex_key_iff :
+  forall (tags : kind -> bytes) (lower hash : bytes -> bytes) (s1 s2 : resite) (a b : bytes),
+    ckey_of tags lower hash (RReL s1 a) = ckey_of tags lower hash (RReL s2 b) <-> lower a = lower b.
+Proof. exact rel_key_iff. Qed.
+Print Assumptions C13_regex_key_iff.
+
+(* ... and then they compile to the same object, so sharing is sound for pairs that collide only
+   after lower-casing (U+212A and k, U+0130 and i, an invalid byte and U+FFFD: instances computed
+   with the regenerated table in gen/FactsC13.v) *)
+Theorem C13_lowercase_collision_same_object :
+  forall (tags : kind -> bytes) (lower hash : bytes -> bytes) (re_ok binre_ok schema_ok : bytes -> bool),
+    (forall a b, lower a = lower b ->
+       ckey_of tags lower hash (RPm a) = ckey_of tags lower hash (RPm b) /\
+       cbuild lower re_ok binre_ok schema_ok (RPm a) = cbuild lower re_ok binre_ok schema_ok (RPm b)) /\
+    (forall l1 l2, map lower l1 = map lower l2 ->
+       ckey_of tags lower hash (RPmF l1) = ckey_of tags lower hash (RPmF l2) /\
+       cbuild lower re_ok binre_ok schema_ok (RPmF l1) = cbuild lower re_ok binre_ok schema_ok (RPmF l2)) /\
+    (forall s1 s2 a b, lower a = lower b ->
+       ckey_of tags lower hash (RReL s1 a) = ckey_of tags lower hash (RReL s2 b) /\
+       cbuild lower re_ok binre_ok schema_ok (RReL s1 a) = cbuild lower re_ok binre_ok schema_ok (RReL s2 b)).
+Proof. exact lowercase_collision_same_object. Qed.
+Print Assumptions C13_lowercase_collision_same_object.
+
+(* Go's strings.ToLower (rune-by-rune mapping under ANY case table whose ranges and images lie above
+   '\n', checked on the regenerated table) keeps a kept line kept: non-empty and newline-free.  Hence the
+   well-formedness premise of C13_keys_faithful on @pmFromFile requests follows from what the line
+   scanner guarantees about the RAW lines, for arbitrary (also invalid UTF-8) bytes *)
+Theorem C13_lower_keeps_wf_line :
+  forall (tbl : list case_range) (l : bytes),
+    tbl_above 10 tbl = true -> wf_line l = true -> wf_line (utf8_map (map_rune tbl) l) = true.
+Proof. exact lower_keeps_wf_line. Qed.
+Print Assumptions C13_lower_keeps_wf_line.
